@@ -76,6 +76,24 @@ CHECKS = {
    note="Trusted: Coq kernel; hand model tied by correspondence. OS scheduling is perturbed, not enumerated (partial for that clause). Known finding G21 (array-valued initial states: per-chain streams depend on the chain count) is re-observed and listed.",
    technique="Coq proof (permutation-invariance of sorted collation, disjointness of stream intervals) + schedule-perturbing differential search against the real sampler",
    design="5/C14"),
+ "C10": dict(
+   cat="proof",
+   text="Coq theorems (no axioms) over rational matrices of ANY size (matrices as functions on the index box, Lib/QMat.v): the identities the structured classes rely on - woodbury_signed (low-rank update AND downdate with the signed capacitance matrix K^-1 + s V A^-1 U), inverse_of_product, inverse_of_scalar_multiple, inverse_of_transpose, transpose_of_product, diagonal_inverse, eigendecomposed_inverse, eigendecomposed_sqrt (any eigenvalue map, hence SoftAbs), triangular_factored_inverse (both signs). Tie: the structured formulas (signed capacitance, Woodbury inverse, low-rank array, triangular-factored inverse) are evaluated by Coq (vm_compute) on the same rational parameters and compared with the implementation's arrays. Search: random expression trees over all 27 leaf kinds / constructor options / sizes 1-4 and operations (T, inv, neg, scalar * and /, @, sqrt) with EVERY observable (array, left/right products with vectors and matrices, diagonal, transpose, log|det|, inverse, eigenvalues/vectors, sqrt factor, symmetry / positive definiteness) of every object in the tree - operands and intermediates re-checked after later operations and lazy-attribute accesses - against dense NumPy; plus a systematic sweep of every leaf kind x cached attributes touched first x every two-operation sequence.",
+   note="Trusted: Coq kernel; executable formulas tied by correspondence. Exact rational arithmetic; LAPACK kernels (eigh, cholesky, lu, sqrtm) are black boxes validated numerically. log|det| statements need multiplicativity of det, which QMat does not have: that observable is covered by the search only (stated gap). Class-selection (which class an operation returns) is explored, not proved.",
+   technique="Coq proof of the matrix identities for all sizes + vm_compute correspondence of the structured formulas + expression-tree differential search against dense NumPy",
+   design="5/C10"),
+ "C11": dict(
+   cat="proof",
+   text="Coq theorems (no axioms): dual matrices (A, A') make the directional derivative of a rational matrix expression its exact second component - dual_inverse_correct (derivative of the inverse, all sizes) and trifactor_grad_qf_correct (for M = s L L^T, both signs, any size, vector and direction, the derivative of v^T M^-1 v equals <-2 u w^T, D>, the gradient the class reports). Tie: Coq evaluates that exact directional derivative on rational inputs and it is compared with <grad_quadratic_form_inv, D> of the implementation. Search: every differentiable class and option (scaled identity, diagonal, triangular-factored with both signs and lower/upper factors, dense definite both signs, dense product with/without inner matrix, SoftAbs coefficients, positive-definite low-rank update and downdate with/without inner matrix, block composition) - <reported gradient, direction> in the parameter's own structure vs central differences of the dense formulas, three requests per object.",
+   note="Trusted: Coq kernel; Lib/Dual.v calculus. Proof covers the dual-number calculus and the triangular-factored quadratic-form gradient; the other classes' formulas are covered by correspondence/search (log-det gradients rest on Jacobi's formula; SoftAbs on eigen-perturbation calculus - not formalised; partial).",
+   technique="Coq proof with dual numbers (exact derivatives, no limits) + vm_compute correspondence + finite-difference search",
+   design="5/C11"),
+ "C19": dict(
+   cat="proof",
+   text="Coq theorems (no axioms): hash_fields_within_eq_fields - for every matrix class, every attribute read by its hash is (an alias of) one compared by its equality, decided by vm_compute over the table regenerated from src/mici/matrices.py by translator T5 (method resolution along the MRO, simple properties followed, constructor-argument aliases of the low-rank subclasses resolved); eq_implies_hash in the value model for any values / hash function; lazy_order_irrelevant - lazily computed attributes are functions of the immutable fields, so after ANY sequence of earlier requests in any order a request returns the same value. Tie: T5 alias pairs validated on live objects. Search: for every class kind and size - all orders of first accesses of the lazy attributes (transpose, inverse, sqrt, eigendecomposition, array, diagonal, log|det|, hash), bitwise snapshots of every array held by the operand and of caller arrays around every operation, writeable flags of defining parameters, eq/hash/copy/deepcopy/pickle, equality implies equal arrays.",
+   note="Trusted: Coq kernel; translator T5 (fail closed). The value model abstracts objects to immutable field assignments: in-place mutation through NumPy views and aliasing are Python runtime behaviour, explored by the search only (partial for the no-mutation clause).",
+   technique="Coq proof over a value model + table regenerated from source (ast translator) + snapshot / permutation search on live objects",
+   design="5/C19"),
 }
 
 NOT_YET = "check not built yet in this round (design in DESIGN.md section 5); no claim is made"
